@@ -154,6 +154,7 @@ pub fn generate(out: &mut Out, seed: u64, thorough: bool) {
                             if dw == 0 && rng.below(8) != 0 {
                                 continue;
                             }
+                            note_current(&format!("cropf64 W={} H={} dw={} dh={} l={:016x} t={:016x} w={:016x} h={:016x}", iw, ih, dw, dh, l.to_bits(), t.to_bits(), w.to_bits(), h.to_bits()));
                             let mut dst = Image::new(dw, dh, PixelType::U8);
                             let mut resizer = Resizer::new();
                             let opts = ResizeOptions::new().resize_alg(ResizeAlg::Nearest).crop(l, t, w, h);
